@@ -48,11 +48,13 @@ def hw : List Ev → Nat
   | _ :: l => hw l
 
 /-- every record begins at or after the end of the previous record of its packet — or after the packet context when it
-    is the first — ends at or after its beginning, and ends inside the first `M` bits -/
+    is the first — ends at or after its beginning, and ends inside the first `M` bits; every closing saves as content size
+    exactly the end of the last record of its packet (or of the packet context), inside the first `M` bits -/
 def ChainOK (M : Nat) : List Ev → Prop
   | [] => True
   | .recDone _ s e :: l => hw l ≤ s ∧ s ≤ e ∧ e ≤ M ∧ ChainOK M l
   | .opened oc :: l => oc ≤ M ∧ ChainOK M l
+  | .closed cs _ _ :: l => cs = hw l ∧ cs ≤ M ∧ ChainOK M l
   | _ :: l => ChainOK M l
 
 /-- a logged store lies inside a buffer of `L` bytes (any other event: no condition) -/
@@ -95,7 +97,16 @@ theorem ChainOK.record {M : Nat} : ∀ (pre : List Ev) (n : String) (a b : Nat) 
   | e :: pre, n, a, b, rest, h => by
     have ih := ChainOK.record (M := M) pre n a b rest
     rw [List.cons_append] at h
-    cases e <;> simp only [ChainOK] at h <;> first | exact ih h | exact ih h.2 | exact ih h.2.2.2
+    cases e <;> simp only [ChainOK] at h <;> first | exact ih h | exact ih h.2 | exact ih h.2.2.2 | exact ih h.2.2
+
+/-- what `ChainOK` says of one closing of the log: the content size it saved is the end of whatever its packet held -/
+theorem ChainOK.closing {M : Nat} : ∀ (pre : List Ev) (cs sn dc : Nat) (rest : List Ev),
+    ChainOK M (pre ++ Ev.closed cs sn dc :: rest) → cs = hw rest ∧ cs ≤ M
+  | [], _, _, _, _, h => ⟨h.1, h.2.1⟩
+  | e :: pre, cs, sn, dc, rest, h => by
+    have ih := ChainOK.closing (M := M) pre cs sn dc rest
+    rw [List.cons_append] at h
+    cases e <;> simp only [ChainOK] at h <;> first | exact ih h | exact ih h.2 | exact ih h.2.2.2 | exact ih h.2.2
 
 structure PInv (d : DST) (L : Nat) (oa : List Args) (s : St) : Prop where
   nh : s.halted = false
@@ -384,6 +395,7 @@ theorem findWrite_src (spec : String → Option WSrc) (n : String) (w : Write) :
     `P` is any property of the platform state and `E` the value of `is_tracing_enabled` (neither is touched) -/
 structure PInvO (d : DST) (L : Nat) (P : Plat → Prop) (E : Bool) (s0 s : St) : Prop where
   sin : Ext (StoreIn L) s0 s
+  lg : Ext Neutral s0 s
   czq : s.c.contentSize = s0.c.contentSize
   nh : s.halted = false
   len : s.buf.length = L
@@ -398,6 +410,8 @@ structure PInvO (d : DST) (L : Nat) (P : Plat → Prop) (E : Bool) (s0 s : St) :
 /-- what the closing function leaves behind -/
 structure PClosed (L : Nat) (P : Plat → Prop) (E : Bool) (s0 s : St) : Prop where
   sin : Ext (StoreIn L) s0 s
+  lgc : ∃ l sn dc, s.log = Ev.closed s0.c.contentSize sn dc :: l ∧ hw l = hw s0.log ∧
+    ∀ M, ChainOK M l = ChainOK M s0.log
   czq : s.c.contentSize = s0.c.contentSize
   nh : s.halted = false
   len : s.buf.length = L
@@ -436,9 +450,11 @@ theorem writeBack_pinv (P : Plat → Prop) (E : Bool) (env : SerEnv) (name : Str
       have hr := runSer_fields (fun st => writeBits env w.sc w.oib v st) (s.setAt off) hi.nh hin.1
       simp only at hr
       obtain ⟨r1, r2, r3, r4, r5, r6, r7, r8, r9, r10⟩ := hr
-      refine ⟨?_, r9.trans hi.czq, r1, ?_, ?_, ?_, ?_, ?_, ?_, ?_, ?_⟩
+      refine ⟨?_, ?_, r9.trans hi.czq, r1, ?_, ?_, ?_, ?_, ?_, ?_, ?_, ?_⟩
       · exact (hi.sin.trans (Ext.of_log_eq rfl : Ext (StoreIn L) s (s.setAt off))).trans
           (runSer_sin L _ (fun st h => writeBits_good L env w.sc w.oib v st h) (s.setAt off) hi.len hin.1)
+      · exact (hi.lg.trans (Ext.of_log_eq rfl : Ext Neutral s (s.setAt off))).trans
+          ((runSer_same _ (s.setAt off)).ext.mono PQuiet.neutral)
       · rw [r3]; exact hin.2.2.2.trans hi.len
       · rw [r4]; exact hi.pkt
       · rw [r2]
@@ -490,10 +506,16 @@ theorem closeFinish_closed (P : Plat → Prop) (E : Bool) (ts : Nat) (saved : Bo
     have hpk : s3.c.packetSize = 8 * L := h4.pkt.trans hi.pkt
     split
     · exact ⟨(hi.sin.trans (h4.sin L)).trans ⟨[_], rfl, by intro e he; simp at he; subst he; trivial⟩,
-        h4.csz.trans hi.czq, h4.nh.trans hi.nh, h4.len.trans hi.len, hpk, hpk, by show s3.c.contentSize ≤ _; rw [h4.csz]; exact hi.cz,
+        ⟨s3.log, _, _, by show _ = Ev.closed s0.c.contentSize _ _ :: s3.log; rw [← hi.czq, ← h4.csz]; rfl,
+          (hi.lg.trans h4.ext).hw, fun M => (hi.lg.trans h4.ext).chain M⟩,
+        h4.csz.trans hi.czq, h4.nh.trans hi.nh, h4.len.trans hi.len, hpk, hpk,
+        by show s3.c.contentSize ≤ _; rw [h4.csz]; exact hi.cz,
         rfl, by show P s3.p; rw [h4p]; exact hi.pp, h4e.trans hi.en⟩
     · exact ⟨(hi.sin.trans (h4.sin L)).trans ⟨[_], rfl, by intro e he; simp at he; subst he; trivial⟩,
-        h4.csz.trans hi.czq, h4.nh.trans hi.nh, h4.len.trans hi.len, hpk, hpk, by show s3.c.contentSize ≤ _; rw [h4.csz]; exact hi.cz,
+        ⟨s3.log, _, _, by show _ = Ev.closed s0.c.contentSize _ _ :: s3.log; rw [← hi.czq, ← h4.csz]; rfl,
+          (hi.lg.trans h4.ext).hw, fun M => (hi.lg.trans h4.ext).chain M⟩,
+        h4.csz.trans hi.czq, h4.nh.trans hi.nh, h4.len.trans hi.len, hpk, hpk,
+        by show s3.c.contentSize ≤ _; rw [h4.csz]; exact hi.cz,
         rfl, by show P s3.p; rw [h4p]; exact hi.pp, h4e.trans hi.en⟩
 
 include hcfg hsmall in
@@ -506,38 +528,26 @@ theorem closeWrite_closed (P : Plat → Prop) (E : Bool) (ts : Nat) (saved : Boo
   unfold closeWrite
   exact closeFinish_closed d L P E ts saved (s.setContentSize s.c.at_) _
     (closeBacks_pinv cfg d L A hcfg hsmall P E ts (s.setContentSize s.c.at_) (s.setContentSize s.c.at_)
-      ⟨Ext.refl _ _, rfl, hnh, hlen, hpkt, hat, hsv, hat, ho, hp, hen⟩)
-
-theorem closeFinish_neutral (d : DST) (ts : Nat) (saved : Bool) (s : St) : Ext Neutral s (closeFinish d ts saved s) := by
-  unfold closeFinish
-  split
-  · exact Ext.refl _ _
-  · simp only
-    have h4 : Ext Neutral s (if d.feat.tsEnd.isSome = true then s.ev (.tsWrite "end" ts) else s) := by
-      split
-      · exact Ext.ev s _ ⟨fun _ => rfl, fun _ _ => rfl⟩
-      · exact Ext.refl _ _
-    generalize (if d.feat.tsEnd.isSome = true then s.ev (.tsWrite "end" ts) else s) = s3 at h4
-    refine h4.trans ?_
-    split <;> exact ⟨[_], rfl, by intro e he; simp at he; subst he; exact ⟨fun _ => rfl, fun _ _ => rfl⟩⟩
-
-/-- the closing function logs no opening and no record -/
-theorem closeWrite_neutral (cfg : Cfg) (d : DST) (ts : Nat) (saved : Bool) (s : St) :
-    Ext Neutral s (closeWrite cfg d ts saved s) := by
-  unfold closeWrite
-  exact ((Ext.of_log_eq rfl : Ext Neutral s (s.setContentSize s.c.at_)).trans
-    ((closeBacks_same cfg d ts _).ext.mono PQuiet.neutral)).trans (closeFinish_neutral d ts saved _)
+      ⟨Ext.refl _ _, Ext.refl _ _, rfl, hnh, hlen, hpkt, hat, hsv, hat, ho, hp, hen⟩)
 
 include hcfg hsmall in
 theorem closeWrite_pinv (ts : Nat) (saved : Bool) (s : St) (hi : PInv d L oa s) (ho : s.c.packetIsOpen = true) :
     PInv d L oa (closeWrite cfg d ts saved s) := by
   have h := closeWrite_closed cfg d L A hcfg hsmall (fun p => p.openArgs = oa ∧ ∀ x ∈ p.setBufs, x.2 = L)
     s.c.isTracingEnabled ts saved s hi.nh hi.len hi.pkt hi.at_ (hi.sv ho) ho ⟨hi.oa, hi.sb⟩ rfl
-  have hx := closeWrite_neutral cfg d ts saved s
-  exact ⟨h.nh, h.len, h.pkt, by rw [h.at_]; exact Nat.le_refl _, fun x => by rw [h.isOpen] at x; simp at x, h.pp.1,
-    h.pp.2, fun x => by rw [h.isOpen] at x; simp at x, h.cz,
-    by rw [hx.hw, h.at_]; exact Nat.le_trans hi.hwle hi.at_, fun x => by rw [h.isOpen] at x; simp at x,
-    by rw [hx.chain]; exact hi.chain, h.sin.storesIn hi.stin⟩
+  obtain ⟨l, sn, dc, hlog, hhw, hch⟩ := h.lgc
+  have hhw' : hw l = hw s.log := hhw
+  have hch' : ∀ M, ChainOK M l = ChainOK M s.log := hch
+  have hcs : (s.setContentSize s.c.at_).c.contentSize = s.c.at_ := rfl
+  refine ⟨h.nh, h.len, h.pkt, by rw [h.at_]; exact Nat.le_refl _, fun x => by rw [h.isOpen] at x; simp at x, h.pp.1,
+    h.pp.2, fun x => by rw [h.isOpen] at x; simp at x, h.cz, ?_, fun x => by rw [h.isOpen] at x; simp at x, ?_,
+    h.sin.storesIn hi.stin⟩
+  · rw [hlog, h.at_]
+    show hw l ≤ 8 * L
+    rw [hhw']; exact Nat.le_trans hi.hwle hi.at_
+  · rw [hlog, hcs]
+    show s.c.at_ = hw l ∧ s.c.at_ ≤ 8 * L ∧ ChainOK (8 * L) l
+    exact ⟨by rw [hhw']; exact (hi.hweq ho).symm, hi.at_, by rw [hch']; exact hi.chain⟩
 
 include hcfg hsmall in
 /-- **the content size a closing saves is the end of the packet's last record** (or of the packet context when it holds
